@@ -70,7 +70,10 @@ OPT_DIMS = {
     "header": [None, ["X-A: 1", "X-B: two words"], {"X-D": "1", "X-E": "e"}, {"X-N": None, "X-F": "f"}, []],
     "connection": [None, "Connection: keep-alive, Upgrade"],
     "jar": [None, "j=1"],
+    "trace": [False, True],        # debug tracing on: what is logged (and possibly masked there) must not change the wire
 }
+OPT_DIMS["header"].append(["Authorization: Basic dXNlcjpwYXNz", "X-Api-Key: s3cret"])
+OPT_DIMS["cookie"].append("session=abc123; token=xyz")
 
 
 def scenarios(rng, tier):
@@ -112,7 +115,25 @@ def run_one(idx, target, opts, draws):
     HS.CookieJar.jar.clear()
     if opts.get("jar"):
         HS.CookieJar.add("j=1; Domain=%s" % hostplain.lower())
-    kw = {k: v for k, v in opts.items() if k != "jar" and v is not None and v is not False}
+    kw = {k: v for k, v in opts.items() if k not in ("jar", "trace") and v is not None and v is not False}
+    import logging
+    lg = logging.getLogger("websocket")
+    lg_state = (lg.level, list(lg.handlers))
+    if opts.get("trace"):
+        websocket.enableTrace(True, handler=logging.NullHandler(), level="DEBUG")
+    try:
+        return _run_reps(idx, target, opts, draws, kw, url, factory, peers, events)
+    finally:
+        if opts.get("trace"):
+            websocket.enableTrace(False, handler=logging.NullHandler())
+            lg.setLevel(lg_state[0])
+            lg.handlers = lg_state[1]
+
+
+def _run_reps(idx, target, opts, draws, kw, url, factory, peers, events):
+    import websocket
+    import websocket._handshake as HS
+    scheme, (hosttxt, v6, hostplain), port, path, query = target
     for rep in range(3):
         w = World(resolver={"*": ["10.0.0.9"]}, peer_factory=factory)
         n0 = len(draws)
@@ -168,6 +189,48 @@ def run_one(idx, target, opts, draws):
     return events
 
 
+def app_requests(ctx, scs):
+    """The opening handshakes of a reconnecting WebSocketApp: every one of them is built from the options as they are
+    at that moment - a callable header option is evaluated for each handshake."""
+    from .. import appworld
+    out = []
+    target = ("ws", ("app.test", False, "app.test"), 0, "/x", "")
+    for R in (1, 2):
+        for static in ([], ["X-Static: s"]):
+            for akw in ({}, {"cookie": "k=v"}, {"subprotocols": ["a"]}):
+                for cbl in (True, False):
+                    sc = {"tid": "c10app", "conns": [{"events": [(50, ("text", "a")), (50, ("eof",))]}, {"events": [(50, ("reset",))]}, {"accept": False},
+                                                     {"events": [(50, ("close", 1000, b""))]}],
+                          "run": {"reconnect": R}, "app_kw": dict(akw, header=list(static), header_callable=cbl), "horizon": 60000}
+                    log, _ = appworld.run_app(sc)
+                    reqs = [e for e in log if e["ev"] == "request"]
+                    evals = 0
+                    prev_evals = 0
+                    keys = []
+                    for k, e in enumerate(reqs):
+                        evals = max([x["n"] for x in log[:log.index(e)] if x["ev"] == "header_eval"] or [0])
+                        raw = bytes(e["raw"])
+                        ok, line, headers = strict_parse(raw)
+                        key = next((h.split(":", 1)[1].strip() for h in headers if h.lower().startswith("sec-websocket-key:")), "")
+                        keys.append(key)
+                        # (a refused attempt evaluates the option too) every handshake follows an evaluation of its own
+                        want = evals if evals > prev_evals else prev_evals + 1
+                        prev_evals = evals
+                        hl = static + (["X-Seq: %d" % want] if cbl else [])
+                        opts = dict(akw, header=hl)
+                        scs.append((target, dict(opts, app=True, handshake=k + 1, evaluations=evals)))
+                        sa = server_accepts(raw)
+                        out.append({
+                            "t": {"scheme": "ws", "host": "app.test", "v6": False, "port": 0, "path": "/x", "query": ""},
+                            "o": {"host": "", "origin": "", "suppressOrigin": False, "subprotocols": akw.get("subprotocols") or [],
+                                  "cookie": akw.get("cookie") or "", "headerLines": hl, "connection": "", "jarCookie": ""},
+                            "line": line, "headers": headers, "key": key, "keyFresh": keys.count(key) == 1, "syntaxOk": ok, "writes": 1,
+                            "serverChecked": sa is not None, "serverAccepts": bool(sa), "url": "ws://app.test/x", "idx": len(scs) - 1, "rep": k})
+                    if len(reqs) < 3:
+                        ctx.machinery_error = "C10 app scenario made %d handshakes, expected at least 3" % len(reqs)
+    return out
+
+
 def main(ctx):
     import os as _os
     rng = random.Random(ctx.seed * 31 + 10)
@@ -186,6 +249,7 @@ def main(ctx):
             ev += run_one(i, t, o, draws)
     finally:
         _os.urandom = real
+    ev += app_requests(ctx, scs)
     invs = ["ResourceAbsolute", "QueryKept", "MandatoryOnce", "OriginRule", "DefaultPortHidden", "V6Bracketed",
             "CookieRule", "CookieOrder"]
     rm = tlc.run("HttpMC", "INIT Init\nNEXT Next\n" + "".join("INVARIANT %s\n" % i for i in invs), "c10_httpmc", timeout=900)
